@@ -243,13 +243,18 @@ def gen_cases(ctx, module, cfg, outname="cases.ndjson", **kw):
     return path
 
 
-def read_ndjson(path):
+def read_ndjson(path, tolerant=False):
+    """tolerant: skip lines cut short by a crash of the writer (the crash itself is reported separately)."""
     out = []
     with open(path) as f:
         for line in f:
             line = line.strip()
             if line:
-                out.append(json.loads(line))
+                try:
+                    out.append(json.loads(line))
+                except ValueError:
+                    if not tolerant:
+                        raise
     return out
 
 
@@ -389,6 +394,10 @@ def finish(ctx, rule, exhaustive=False, extra_cov=None):
     for k in ctx.known:
         print("KNOWN-FINDING: property=%s %s" % (ctx.prop, k["what"]), flush=True)
     rdir = os.path.join(VERIF, "replays", ctx.prop)
+    if os.path.isdir(rdir) and not getattr(ctx, "replay", None):
+        for fn in os.listdir(rdir):            # replay files of earlier runs are stale
+            if fn.endswith(".json"):
+                os.remove(os.path.join(rdir, fn))
     paths = []
     for i, v in enumerate(ctx.violations[:20]):
         os.makedirs(rdir, exist_ok=True)
